@@ -7,7 +7,9 @@ const azCheckWords = "github.com/boombuler/barcode/aztec.generateCheckWords"
 func init() {
 	oracle := "reference model harness/aztec/oracle_aztec.go written from ISO/IEC 24778 (sizes, word sizes, bullseye, orientation marks, mode message with RS over GF(16), reference grid, spiral data placement, RS over GF(64..4096), stuffing, full character-set decoder), validated natively against 21993 library symbols of all 36 types"
 	rsStub := "(*ReedSolomonEncoder).Encode replaced by the reference remainder (value-preserving; guarantee side: RS-enc-az* obligations of C17)"
-	rs := func(in *exec.Instance, tier string) { in.Redirect = map[string]string{rsEncode: "utils:VPRSEncodeSummary"} }
+	rs := func(in *exec.Instance, tier string) {
+		in.Redirect = map[string]string{rsEncode: "utils:VPRSEncodeSummary"}
+	}
 	reg(&Oblig{ID: "AZ-A", Pkg: "aztec", Func: "VP_AZ_hl", Props: []string{"C03"},
 		Desc:  "high-level encoder: after concrete prefixes leaving the search in every mode mix, n symbolic bytes; the reference decoder (all five modes, latches, shifts, punctuation pairs, binary shift in short and long form) returns the payload byte for byte; payload untouched",
 		Real:  []string{"aztec.highlevelEncode", "aztec.updateStateListForChar/Pair", "aztec.updateStateForChar/Pair", "aztec.simplifyStates", "(*state).latchAndAppend/shiftAndAppend/addBinaryShiftChar/endBinaryShift/isBetterThanOrEqualTo/toBitList", "(*simpleToken).appendTo", "(*binaryShiftToken).appendTo"},
